@@ -21,6 +21,8 @@ def random_ops(rnd, n):
             elif k < 0.7 and nw < 3:
                 nw += 1
                 ops.append({'op': 'watch', 's': s, 'v': 0, 'w': nw})
+                if rnd.random() < 0.5:
+                    ops.append({'op': 'park', 's': '', 'v': 0, 'w': nw})
             elif nw:
                 ops.append({'op': 'next', 's': '', 'v': 0, 'w': rnd.randint(1, nw)})
         for w in range(1, nw + 1):
